@@ -63,7 +63,7 @@ var c10Encs = []string{"plain", "aes-256-gcm", "aes-128-gcm", "chacha20-poly1305
 var c10Names = []string{"www.bing.com", "random", "RANDOM", "a-1.b2.example.org", "Random", "xn--bcher-kva.example"}
 var c10NumConns = []int{1, 2, 4}
 var c10Patterns = []string{"small", "multiframe", "manystreams", "target-closes", "banner", "server-close", "inactivity",
-	"idle", "fault", "abrupt", "pipelined"}
+	"idle", "fault", "abrupt", "pipelined", "empty-from-target", "empty-from-app"}
 
 func (s c10Scenario) sig() string {
 	n := s.Name
@@ -96,7 +96,7 @@ func c10Scenarios(rng *kit.Rng, thorough bool) []c10Scenario {
 			}
 		}
 		// singleplex and unordered sessions
-		for i, p := range []string{"small", "multiframe", "target-closes", "server-close", "inactivity", "abrupt"} {
+		for i, p := range []string{"small", "multiframe", "target-closes", "server-close", "inactivity", "abrupt", "empty-from-target", "empty-from-app"} {
 			for j, b := range c10Browsers {
 				add(b, c10Names[(i+j+round)%len(c10Names)], c10Encs[(i+j+round)%4], 0, false, p)
 				add(b, c10Names[(i+2*j+round)%len(c10Names)], c10Encs[(i+j+1+round)%4], c10NumConns[(i+j)%3], true, p)
@@ -502,6 +502,54 @@ func c10Traffic(sc c10Scenario, cs *mux.Session, sta *State, sid uint32, vn *kit
 				}
 			}
 		}
+	case "empty-from-target":
+		// UDP-style proxy target (message connection): its answer contains an EMPTY datagram, so the server's relay
+		// common.Copy(stream, localConn) -> Stream.ReadFrom sees Read return (0, nil).  Nothing may reach the wire for it.
+		if s := open(); s != nil {
+			if _, err := s.Write(rng.Bytes(1 + rng.Intn(200))); err != nil {
+				out.stat("write_errors")
+			}
+			for i := 0; i < 4; i++ {
+				s.SetReadDeadline(time.Now().Add(5 * time.Second))
+				if _, err := s.Read(make([]byte, 20000)); err != nil {
+					break
+				}
+				out.stat("datagrams_from_target")
+			}
+			s.Close()
+		}
+	case "empty-from-app":
+		// the client-side relay of RouteTCP (first packet written, then common.Copy both ways) with a local application
+		// connection whose Read returns (0, nil) once: Stream.ReadFrom on the client->server path
+		if s := open(); s != nil {
+			an := kit.NewVNet()
+			al := an.NewLink(false, true) // message mode: an empty Write is an empty Read on the other end
+			app, local := al.End(0), al.End(1)
+			if _, err := s.Write(rng.Bytes(1 + rng.Intn(100))); err != nil {
+				out.stat("write_errors")
+			}
+			var wg sync.WaitGroup
+			wg.Add(2)
+			go func() { defer wg.Done(); common.Copy(local, s) }()
+			go func() { defer wg.Done(); common.Copy(s, local) }()
+			for _, n := range []int{1 + rng.Intn(300), 0, 1 + rng.Intn(300), 0} {
+				if _, err := app.Write(rng.Bytes(n)); err != nil {
+					out.stat("app_write_errors")
+					break
+				}
+				out.stat(fmt.Sprintf("app_datagrams_len0_%v", n == 0))
+				synctest.Wait()
+			}
+			app.SetReadDeadline(time.Now().Add(5 * time.Second))
+			for {
+				if _, err := app.Read(make([]byte, 20000)); err != nil {
+					break
+				}
+			}
+			app.Close()
+			s.Close()
+			wg.Wait()
+		}
 	case "pipelined":
 		// writer and reader run independently: frames of both directions interleave on the wire
 		if s := open(); s != nil {
@@ -529,6 +577,20 @@ func c10Traffic(sc c10Scenario, cs *mux.Session, sta *State, sid uint32, vn *kit
 	}
 }
 
+// c10ProxyDialer is State.ProxyDialer: every dial is a fresh in-memory connection to the scripted proxy target; in
+// message mode (UDP-style target) one Read returns one datagram, an empty one as (0, nil).
+type c10ProxyDialer struct {
+	pn  *kit.VNet
+	msg bool
+	h   func(net.Conn)
+}
+
+func (d *c10ProxyDialer) Dial(network, address string) (net.Conn, error) {
+	l := d.pn.NewLink(false, d.msg)
+	go d.h(l.End(1))
+	return l.End(0), nil
+}
+
 func c10EchoHandler(sc c10Scenario) func(net.Conn) {
 	return func(c net.Conn) {
 		defer c.Close()
@@ -540,6 +602,16 @@ func c10EchoHandler(sc c10Scenario) func(net.Conn) {
 				if sc.Pattern == "banner" && first {
 					// a long unsolicited answer in several writes
 					for _, k := range []int{1, 7000, 33000} {
+						if _, err := c.Write(make([]byte, k)); err != nil {
+							return
+						}
+					}
+					first = false
+					continue
+				}
+				if sc.Pattern == "empty-from-target" && first {
+					// datagram, EMPTY datagram, datagram, EMPTY datagram
+					for _, k := range []int{5, 0, 700, 0} {
 						if _, err := c.Write(make([]byte, k)); err != nil {
 							return
 						}
@@ -675,10 +747,9 @@ func c10RunScenario(t *testing.T, sc c10Scenario, stuck func(*c10Outcome)) *c10O
 		vn, pn := kit.NewVNet(), kit.NewVNet()
 		tp := &c10Tap{links: map[int]*c10LinkTap{}}
 		vn.Tap = tp.on
-		srvL, echoL, redirL := vn.Listen(), pn.Listen(), pn.Listen()
-		sta := c10NewState(echoL, redirL)
+		srvL, redirL := vn.Listen(), pn.Listen()
+		sta := c10NewState(&c10ProxyDialer{pn: pn, msg: sc.Pattern == "empty-from-target", h: c10EchoHandler(sc)}, redirL)
 		go c10AcceptLoop(srvL, func(c net.Conn) { dispatchConnection(c, sta) })
-		go c10AcceptLoop(echoL, c10EchoHandler(sc))
 		go c10AcceptLoop(redirL, func(c net.Conn) { io.Copy(io.Discard, c); c.Close() })
 		world := common.WorldState{Rand: rand.Reader, Now: time.Now}
 		raw := client.RawConfig{ServerName: sc.Name, ProxyMethod: "echo", EncryptionMethod: sc.Enc, UID: c10UID,
@@ -713,7 +784,6 @@ func c10RunScenario(t *testing.T, sc c10Scenario, stuck func(*c10Outcome)) *c10O
 		time.Sleep(40 * time.Second) // late timers (inactivity checks of both endpoints)
 		synctest.Wait()
 		srvL.Close()
-		echoL.Close()
 		redirL.Close()
 		synctest.Wait()
 		c10Analyse(sc, tp, out)
